@@ -149,7 +149,7 @@ def run(ctx):
 
     # ---- 2./3. binding
     new_state = [False, True]
-    n_conf = {"r1": 100, "r0": 100, "r3": 60, "r20": 20} if thorough else {"r1": 22, "r0": 22, "r3": 14, "r20": 5}
+    n_conf = {"r1": 100, "r0": 100, "r3": 60, "r20": 20} if thorough else {"r1": 18, "r0": 18, "r3": 12, "r20": 5}
     n_enum = {"r1": 25, "r0": 25, "r3": 15, "r20": 0} if thorough else {"r1": 6, "r0": 6, "r3": 4, "r20": 0}
     # Pebble (thorough): every trial opens and closes a database directory: a slice only
     n_pebble_conf = {"r1": 20, "r0": 20, "r3": 10}
